@@ -93,7 +93,8 @@ def run_cases(rep, cases, conf, variant, table, path, dist, sample_tag=None):
         if k in idx and mo2[idx[k]].startswith("ok "):
             raw = mo2[idx[k]].split()[1]
             if exp == "ok" and c.queries:
-                c.queries = c.queries + [short_string(bytes.fromhex(raw)).decode("latin-1").lower()]
+                al = short_string(bytes.fromhex(raw)).decode("latin-1").lower()
+                c.queries = c.queries + [al] + alias_expansions(al)
         c.lines = case_lines(c, exp)
         c.i0 = len(script)
         script += c.lines
@@ -192,6 +193,23 @@ def run_cases(rep, cases, conf, variant, table, path, dist, sample_tag=None):
             sample_tag = None
 
 
+def alias_expansions(al):
+    """spellings of an (ASCII, lower-cased) alias through characters whose upper-case mapping is ASCII (long s, dotless i, sharp s,
+    the ff/fi/fl/st ligatures): they match the alias ignoring case in a Unicode-aware build, need more UTF-8 bytes than the 12 of an
+    8.3 name, and match nothing in a build without Unicode folding (direct_match decides with the build's own table)"""
+    out = []
+    for a, b in (("fi", "\ufb01"), ("fl", "\ufb02"), ("ff", "\ufb00"), ("st", "\ufb06"), ("ss", "\u00df"), ("s", "\u017f"), ("i", "\u0131")):
+        if a in al:
+            v = al.replace(a, b)
+            if v not in out:
+                out.append(v)
+    if len(out) > 1:
+        v = al.replace("s", "\u017f").replace("i", "\u0131")
+        if v not in out:
+            out.append(v)
+    return out[:3]
+
+
 def std_queries(name, table, inv, alias=True):
     """same name, a case-changed spelling, a near miss (different name)"""
     qs = [name, case_variant(name, table, inv)]
@@ -224,6 +242,18 @@ def gen_ascii_cases(table, inv):
         ch = chr(c)
         for n in (ch, ch + "mid", "ab" + ch + "cd", "tail" + ch):
             cs.append(Case(n, "file" if c % 2 else "dir", std_queries(n, table, inv) if spec_validate(n) == "ok" else [], "ascii"))
+    return cs
+
+
+def gen_aliasx_cases(table, inv):
+    """long names whose generated aliases contain s / i / f / l / t in every position: run_cases looks each of them up through the
+    lower-cased alias AND through the spellings of alias_expansions"""
+    cs = []
+    for n in ("filesystem report.txt", "final list of items.text", "strasse und fluss.doc", "first fish sticks.sit", "missing files list.ini",
+              "stiff staff stuff.fst", "ss long name one.sss", "is it in this list.iii", "flush fill flip flop.fl", "sift lists first.sfi",
+              "ff leading ligature.ffi", "a fish is listed.ist", "still missing.s", "infinite fission.fis"):
+        cs.append(Case(n, "file", std_queries(n, table, inv), "aliasx"))
+        cs.append(Case(n.upper().replace(" ", "_") + "x", "dir", std_queries(n.upper().replace(" ", "_") + "x", table, inv), "aliasx"))
     return cs
 
 
@@ -563,13 +593,14 @@ def run(rep, tier, seed):
         cases = gen_casepair_cases(table, inv, variant)
         if variant == "default":
             streams = [("len", lens, CONFS[0]), ("ascii", asc, CONFS[0]), ("dots", dots, CONFS[0]), ("case", cases, CONFS[0]),
+                       ("aliasx", gen_aliasx_cases(table, inv), CONFS[0]), ("aliasx32", gen_aliasx_cases(table, inv), CONFS[2]),
                        ("bmp", gen_scalar_cases(tier, rng, table, inv), CONFS[0]),
                        ("random", gen_random_cases(tier, rng, table, inv), CONFS[1]),
                        ("len16", lens[::3], CONFS[1]), ("dots32", dots, CONFS[2]), ("ascii32", asc[::2], CONFS[2])]
             if tier == "thorough":
                 streams += [("case16", cases, CONFS[1]), ("len32", lens, CONFS[2])]
         else:
-            streams = [("case", cases, CONFS[0]), ("ascii", asc[::2], CONFS[0]), ("len", lens[::5], CONFS[0]),
+            streams = [("case", cases, CONFS[0]), ("ascii", asc[::2], CONFS[0]), ("len", lens[::5], CONFS[0]), ("aliasx", gen_aliasx_cases(table, inv), CONFS[0]),
                        ("random", gen_random_cases("quick", rng, table, inv)[::3 if tier == "quick" else 1], CONFS[2])]
         for tag, cs, conf in streams:
             # keep scripts moderate: chunks of 20000 cases
